@@ -159,7 +159,13 @@ pub(super) fn deliver(k: &mut Kernel, pkt: &Packet, d: &UdpDatagram) {
     let st = k.sockets.get_mut(fd).expect("socket entry present");
     let from = Addr::Inet(SocketAddr::new(pkt.src, d.src_port));
     if let Some(peer) = &st.peer {
-        if peer != &from {
+        // Compare what a packet can carry: the address as the caller
+        // wrote it may hold an IPv6 scope id or flow label.
+        let same = match peer {
+            Addr::Inet(sa) => Addr::Inet(crate::kernel::wire_addr(*sa)) == from,
+            other => *other == from,
+        };
+        if !same {
             return;
         }
     }
